@@ -230,12 +230,17 @@ def _reset_manager():
         pass
 
 
-def _template(spec_key: str, tasks: list, status0: int, base: Path):
-    """A database file holding one workflow with the contended stage (and a bystander stage)."""
+REF_TAG = {"a": 101, "b": 202, "c": 303}
+
+
+def _template(spec_key: str, tasks: list, status0: int, base: Path, join: str | None = None):
+    """A database file holding one workflow with the contended stage and bystander stages.
+    join=None: contended stage 'a' + bystander 'b'.  join='DISCRIMINATOR'|'N_OF_M': the contended stage is a join
+    stage 'j' with upstreams a, b, c (what _update_join_tracking works on)."""
     if spec_key in _TEMPLATES:
         return _TEMPLATES[spec_key]
     lib.ensure_repo_on_path()
-    from stabilize.models.stage import StageExecution
+    from stabilize.models.stage import JoinType, StageExecution
     from stabilize.models.status import WorkflowStatus
     from stabilize.models.task import TaskExecution
     from stabilize.models.workflow import Workflow
@@ -243,7 +248,12 @@ def _template(spec_key: str, tasks: list, status0: int, base: Path):
     path = base / f"tpl-{len(_TEMPLATES)}.db"
     store = SqliteWorkflowStore(f"sqlite:///{path}", create_tables=True)
     wf = Workflow.create("c07", "c07", [])
-    st = StageExecution.create("stage-a", "A", "a")
+    if join is None:
+        st = StageExecution.create("stage-a", "A", "a")
+    else:
+        st = StageExecution.create("stage-j", "J", "j", requisite_stage_ref_ids={"a", "b", "c"})
+        st.join_type = JoinType[join]
+        st.join_threshold = 2
     st.execution = wf
     st.status = WorkflowStatus[_statuses()[status0]]
     st.context = {"log": []}
@@ -254,16 +264,20 @@ def _template(spec_key: str, tasks: list, status0: int, base: Path):
         t.status = WorkflowStatus[_statuses()[code]]
         ts.append(t)
     st.tasks = ts
-    other = StageExecution.create("stage-b", "B", "b")
-    other.execution = wf
-    other.context = {"log": []}
-    ot = TaskExecution.create("TB", "shell")
-    ot.id = _tid(900000)
-    other.tasks = [ot]
-    wf.stages = [st, other]
+    others = []
+    for ref in (["b"] if join is None else ["a", "b", "c"]):
+        o = StageExecution.create("stage-" + ref, ref.upper(), ref)
+        o.execution = wf
+        o.context = {"log": []}
+        if ref == "b":
+            ot = TaskExecution.create("TB", "shell")
+            ot.id = _tid(900000)
+            o.tasks = [ot]
+        others.append(o)
+    wf.stages = [st] + others
     store.store(wf)
     store.close()
-    _TEMPLATES[spec_key] = (path, st.id, other.id)
+    _TEMPLATES[spec_key] = (path, st.id, {o.ref_id: o.id for o in others})
     return _TEMPLATES[spec_key]
 
 
@@ -273,7 +287,8 @@ def _apply_mod(stage, mod):
     names = _statuses()
     if mod["status"] is not None:
         stage.status = WorkflowStatus[names[mod["status"]]]
-    stage.context.setdefault("log", []).append(mod["tag"])
+    if mod["tag"] is not None:
+        stage.context.setdefault("log", []).append(mod["tag"])
     setm = {}
     for tid, code in mod["set"]:
         setm.setdefault(_tid(tid), code)            # first binding wins (assocZ)
@@ -295,7 +310,10 @@ def _read_row(conn, sid):
     if r is None:
         return None
     names = _statuses()
-    return {"ver": r[0], "status": names.index(r[1]), "log": json.loads(r[2]).get("log", []),
+    ctx = json.loads(r[2])
+    log = list(ctx.get("log", [])) + [REF_TAG[x] for x in ctx.get("_completed_branches", [])] \
+        + [int(d["signal_name"]) for d in ctx.get("_buffered_signals", [])]
+    return {"ver": r[0], "status": names.index(r[1]), "log": log,
             "tasks": [[int(t[0][1:]), t[1], names.index(t[2])] for t in ts]}
 
 
@@ -306,8 +324,9 @@ def real_run(spec: dict, chooser, base: Path) -> dict:
     os.environ["STABILIZE_SQLITE_BUSY_TIMEOUT_MS"] = "1500"
     from stabilize.errors import ConcurrencyError
     from stabilize.persistence.sqlite.store import SqliteWorkflowStore
-    key = json.dumps([spec["tasks"], spec["status0"]])
-    tpl, sid, other_sid = _template(key, spec["tasks"], spec["status0"], base)
+    key = json.dumps([spec["tasks"], spec["status0"], spec.get("join")])
+    tpl, sid, other_ids = _template(key, spec["tasks"], spec["status0"], base, spec.get("join"))
+    other_sid = other_ids["b"]
     path = base / ("run-%d-%d.db" % (os.getpid(), real_run.counter))
     real_run.counter += 1
     shutil.copyfile(tpl, path)
@@ -320,13 +339,108 @@ def real_run(spec: dict, chooser, base: Path) -> dict:
         sched = Scheduler(n, chooser)
         ready = threading.Barrier(n + 1)
 
+        class RecTxn:
+            """observes AtomicTransaction.store_stage of a real handler (delegates everything)"""
+
+            def __init__(self, txn, i):
+                self._t, self._i, self.stored = txn, i, False
+
+            def __getattr__(self, name):
+                return getattr(self._t, name)
+
+            def store_stage(self, stage, expected_phase=None):
+                if stage.id == sid:
+                    out["bases"][self._i].append(stage.version)
+                    self.stored = True
+                return self._t.store_stage(stage, expected_phase=expected_phase)
+
+        class RecRepo:
+            """observes the store calls of a real handler: per-attempt base version and outcome"""
+
+            def __init__(self, i):
+                self._i = i
+
+            def __getattr__(self, name):
+                return getattr(store, name)
+
+            def store_stage(self, stage, expected_phase=None):
+                mine = stage.id == sid
+                if mine:
+                    out["bases"][self._i].append(stage.version)
+                try:
+                    store.store_stage(stage, expected_phase=expected_phase)
+                except ConcurrencyError:
+                    if mine:
+                        out["results"][self._i].append("conc")
+                    raise
+                if mine:
+                    out["results"][self._i].append("ok")
+
+            def transaction(self, queue=None):
+                import contextlib
+                rec_i = self._i
+
+                @contextlib.contextmanager
+                def cm():
+                    rec = None
+                    try:
+                        with store.transaction(queue) as txn:
+                            rec = RecTxn(txn, rec_i)
+                            yield rec
+                    except ConcurrencyError:
+                        if rec is not None and rec.stored:
+                            out["results"][rec_i].append("conc")
+                        raise
+                    if rec is not None and rec.stored:
+                        out["results"][rec_i].append("ok")
+                return cm()
+
+        def engine_call(i: int, w: dict):
+            """run the REAL handler code for worker i (its own retry loop included)"""
+            import resilient_circuit.retry as rr
+            rr.sleep = lambda s_: None
+            eng = w["engine"]
+            repo = RecRepo(i)
+            if eng["kind"] == "join":
+                from stabilize.handlers.complete_stage.handler import CompleteStageHandler
+                h = CompleteStageHandler(queue=None, repository=repo)
+                return lambda: h._update_join_tracking(eng["_up"], [eng["_down"]])
+            from stabilize.queue.messages import CancelStage, SignalStage
+            wf_id = eng["_down"].execution.id
+            if eng["kind"] == "signal":
+                from stabilize.handlers.signal_stage import SignalStageHandler
+                h = SignalStageHandler(queue=None, repository=repo)
+                m = SignalStage(execution_type="PIPELINE", execution_id=wf_id, stage_id=sid,
+                                signal_name=str(eng["name"]), signal_data={"n": eng["name"]}, persistent=True)
+                m.message_id = "sig-%d" % i
+                return lambda: h.handle(m)
+            from stabilize.handlers.cancel_stage import CancelStageHandler
+            h = CancelStageHandler(queue=None, repository=repo)
+            m = CancelStage(execution_type="PIPELINE", execution_id=wf_id, stage_id=sid)
+            m.message_id = "can-%d" % i
+            return lambda: h.handle(m)
+
         def worker(i: int, w: dict):
             _tl.idx, _tl.armed, _tl.epilogue = i, False, False
             try:
                 sched.conns[i] = store._get_connection()     # open + PRAGMAs before scheduling starts
+                call = None
+                if w.get("engine"):
+                    w["engine"]["_down"] = store.retrieve_stage(sid)
+                    if w["engine"]["kind"] == "join":
+                        w["engine"]["_up"] = store.retrieve_stage(other_ids[w["engine"]["ref"]])
+                    call = engine_call(i, w)
                 ready.wait()
                 _tl.armed = True
-                for _attempt in range(w["tries"]):
+                if call is not None:
+                    try:
+                        call()
+                    except ConcurrencyError:
+                        pass                                  # budget exhausted: what the queue processor would reschedule
+                    except (sqlite3.Error, ValueError) as e:
+                        out["results"][i].append("other")
+                        out["crash"][i] = repr(e)[:200]
+                for _attempt in range(0 if call is not None else w["tries"]):
                     try:
                         stage = store.retrieve_stage(sid)
                         out["bases"][i].append(stage.version)
@@ -362,6 +476,9 @@ def real_run(spec: dict, chooser, base: Path) -> dict:
                         c.rollback()
                 except Exception:
                     pass
+                if w.get("engine"):
+                    w["engine"].pop("_down", None)
+                    w["engine"].pop("_up", None)
                 sched.done(i)
 
         _SCHED = sched
@@ -523,7 +640,8 @@ def _expected_view(spec: dict, order: list[int]) -> dict:
         m = spec["workers"][i]["mod"]
         if m["status"] is not None:
             status = m["status"]
-        log = log + [m["tag"]]
+        if m["tag"] is not None:
+            log = log + [m["tag"]]
         setm = {}
         for tid, code in m["set"]:
             setm.setdefault(tid, code)
@@ -593,7 +711,8 @@ def monitors(spec: dict, r: dict) -> list[tuple[str, str]]:
     exp = _expected_view(spec, commit_order)
     got = {"status": final["status"], "log": final["log"], "tasks": sorted([t[0], t[2]] for t in final["tasks"])}
     if got != exp:
-        lost = [spec["workers"][i]["mod"]["tag"] for i in succeeded if spec["workers"][i]["mod"]["tag"] not in final["log"]]
+        lost = [spec["workers"][i]["mod"]["tag"] for i in succeeded
+                if spec["workers"][i]["mod"]["tag"] is not None and spec["workers"][i]["mod"]["tag"] not in final["log"]]
         sig = "lost-update" if lost or got["tasks"] != exp["tasks"] or got["status"] != exp["status"] else "phantom-update"
         bad.append((sig, f"final row {got} differs from the successful modifications applied in commit order "
                          f"{commit_order}: {exp} (lost tags {lost})"))
@@ -629,7 +748,8 @@ def case_term(spec: dict, r: dict) -> str:
         ph = w["phase"]
         phs = "NoPhase" if ph[0] == "none" else ("PhaseSnap" if ph[0] == "snap" else "(PhaseFixed %s)" % cq_Z(ph[1]))
         m = w["mod"]
-        mod = "(mk_mod %s %s %s %s)" % ("None" if m["status"] is None else "(Some %s)" % cq_Z(m["status"]), cq_Z(m["tag"]),
+        mod = "(mk_mod %s %s %s %s)" % ("None" if m["status"] is None else "(Some %s)" % cq_Z(m["status"]),
+                                        "None" if m["tag"] is None else "(Some %s)" % cq_Z(m["tag"]),
                                         _cq_pairs(m["set"]), _cq_pairs(m["new"]))
         progs.append("mk_prog %s %s %s %s %s" % ("Plain" if w["variant"] == "plain" else "Txn", phs, mod, cq_nat(w["tries"]),
                                                  "true" if w.get("poison") else "false"))
@@ -664,11 +784,64 @@ def _mod(rng, i: int, tasks, rich: bool) -> dict:
     return m
 
 
+def _gen_budgets() -> tuple[int, int]:
+    """(attempts of retry_on_concurrency_error, attempts of _update_join_tracking) as the translator read them"""
+    import re
+    a = re.search(r"concurrency_max_retries : Z := (\d+)%Z", (lib.COQ / "gen" / "Gen_Config.v").read_text())
+    b = re.search(r"join_tracking_max_tries : Z := (\d+)%Z", (lib.COQ / "gen" / "Gen_Occ.v").read_text())
+    return (int(a.group(1)) + 1 if a else 4), (int(b.group(1)) if b else 5)
+
+
+def engine_worker(kind: str, tasks, arg=None) -> dict:
+    """A worker that runs REAL handler code, with its description as an Occ program."""
+    names = _statuses()
+    h_tries, j_tries = _gen_budgets()
+    if kind == "join":      # CompleteStageHandler._update_join_tracking(upstream `arg`, [join stage])
+        return {"variant": "plain", "phase": ["snap"], "mod": {"status": None, "tag": REF_TAG[arg], "set": [], "new": []},
+                "tries": j_tries, "engine": {"kind": "join", "ref": arg}}
+    if kind == "signal":    # SignalStageHandler.handle(persistent signal `arg`) on a stage that is not SUSPENDED: buffers it
+        return {"variant": "txn", "phase": ["none"], "mod": {"status": None, "tag": arg, "set": [], "new": []},
+                "tries": h_tries, "engine": {"kind": "signal", "name": arg}}
+    can = names.index("CANCELED")   # CancelStageHandler.handle
+    live = (names.index("NOT_STARTED"), names.index("RUNNING"))
+    return {"variant": "txn", "phase": ["none"],
+            "mod": {"status": can, "tag": None, "set": [[t, can] for t, c in tasks if c in live], "new": []},
+            "tries": h_tries, "engine": {"kind": "cancel"}}
+
+
+def gen_engine_specs(ctx) -> list:
+    rng = ctx.rng
+    thorough = ctx.tier == "thorough"
+    names = _statuses()
+    run_, ns = names.index("RUNNING"), names.index("NOT_STARTED")
+    tasks = [[1, run_], [2, ns]]
+    jobs = []
+    for join in ("DISCRIMINATOR", "N_OF_M"):
+        spec = {"tasks": tasks, "status0": ns, "join": join,
+                "workers": [engine_worker("join", tasks, "a"), engine_worker("join", tasks, "b")]}
+        jobs.append(("all", spec, 5000, 0, "engine:join-tracking-2"))
+        spec = {"tasks": tasks, "status0": ns, "join": join,
+                "workers": [engine_worker("join", tasks, r) for r in ("a", "b", "c")]}
+        if thorough:
+            jobs.append(("split", spec, 100000, 0, "engine:join-tracking-3-all"))
+        else:
+            jobs.append(("random", spec, 60, rng.randrange(1 << 30), "engine:join-tracking-3"))
+    pairs = [("signal", 111), ("signal", 222)], [("signal", 111), ("cancel", None)], [("cancel", None), ("signal", 222)]
+    for pr in pairs:
+        spec = {"tasks": tasks, "status0": run_, "workers": [engine_worker(k, tasks, a) for k, a in pr]}
+        jobs.append(("all", spec, 5000, 0, "engine:" + "-vs-".join(k for k, _ in pr)))
+    spec = {"tasks": tasks, "status0": run_,
+            "workers": [engine_worker("signal", tasks, 111), engine_worker("cancel", tasks), engine_worker("signal", tasks, 222)]}
+    jobs.append(("split", spec, 100000, 0, "engine:signal-cancel-signal-all") if thorough
+                else ("random", spec, 90, rng.randrange(1 << 30), "engine:signal-cancel-signal"))
+    return jobs
+
+
 def gen_specs(ctx) -> list[tuple[str, dict, int, int, str]]:
     """(kind, spec, limit, seed, family)"""
     rng = ctx.rng
     thorough = ctx.tier == "thorough"
-    jobs = []
+    jobs = gen_engine_specs(ctx)
     base_tasks = [[1, 0], [2, 1]]
     # family A: every ordered pair of the 4 public API variants, 2 writers, one attempt each — ALL interleavings
     for a in API:
